@@ -381,8 +381,9 @@ mod ir_builder {
                 }
 
             rule op_const() -> IrAstOperation
-                = "const" _ val_ty:ast_ty() cv:constant() {
-                    IrAstOperation::Const(val_ty, cv)
+                = "const" _ val_ty:ast_ty() cv:constant() {?
+                    hex_bytes_only_for_slice(&val_ty, &cv)?;
+                    Ok(IrAstOperation::Const(val_ty, cv))
                 }
 
             rule op_contract_call() -> IrAstOperation
@@ -697,8 +698,9 @@ mod ir_builder {
                 }
 
             rule field_or_element_const() -> (IrAstTy, IrAstConst)
-                = ty:ast_ty() cv:constant() {
-                    (ty, cv)
+                = ty:ast_ty() cv:constant() {?
+                    hex_bytes_only_for_slice(&ty, &cv)?;
+                    Ok((ty, cv))
                 }
                 / ty:ast_ty() "undef" _ {
                     (ty.clone(), IrAstConst { value: IrAstConstValue::Undef, meta_idx: None })
@@ -1968,6 +1970,15 @@ mod ir_builder {
             md_map.insert(ir_idx, md_idx);
         }
         md_map
+    }
+
+    /// A hex string of arbitrary length is only a constant of the (raw untyped) `slice` type.
+    fn hex_bytes_only_for_slice(ty: &IrAstTy, cv: &IrAstConst) -> Result<(), &'static str> {
+        match (&cv.value, ty) {
+            (IrAstConstValue::HexBytes(_), IrAstTy::Slice) => Ok(()),
+            (IrAstConstValue::HexBytes(_), _) => Err("hex string of 64 digits"),
+            _ => Ok(()),
+        }
     }
 
     fn string_to_hex<const N: usize>(s: &str) -> [u8; N] {
